@@ -45,6 +45,14 @@ class C14Run(E2Run):
 
     def after_build(self):
         self.hosts = [n for n in self.network.nodes.values() if n.__class__.__name__ in ("Computer", "Server", "Printer")]
+        # the durations the timing clauses are judged by are the CONFIGURED ones: a folder must carry the scenario's
+        # folder defaults (folders state no durations of their own)
+        d = self.scenario.get("defaults") or {}
+        for n in self.hosts:
+            for folder in n.file_system.folders.values():
+                for dk, attr in (("folder_scan_duration", "scan_duration"), ("folder_restore_duration", "restore_duration")):
+                    if dk in d and getattr(folder, attr) != d[dk]:
+                        raise Violation("C14", "configured-duration-not-used", f"{n.config.hostname}/{folder.name}: configured {dk} {d[dk]}, the folder works with {getattr(folder, attr)}", sig=f"configured-duration-not-used:{dk}", detail={})
         self.shadow = {n.config.hostname: self.items(n) for n in self.hosts}
         self.pending: List[Dict] = []  # timed operations: kind, host, target, requested_at, duration
         self.offsets: Dict[str, int] = {}
